@@ -454,3 +454,32 @@ MUTANTS += [
 
     void decrypt""")]),
 ]
+MUTANTS += [
+ dict(name='c17-asm-store-past-end', prop='C17', expect='asm|footprint',
+      edits=[('src/core/arch/x86_64/bigint.s', """embedded_pairing_core_arch_x86_64_bigint_384_multiply2:
+    movq (%rsi), %rax
+    add %rax, %rax
+    movq %rax, (%rdi)
+""", """embedded_pairing_core_arch_x86_64_bigint_384_multiply2:
+    movq (%rsi), %rax
+    add %rax, %rax
+    movq %rax, (%rdi)
+    movq %rax, 48(%rdi)
+""")]),
+ dict(name='c17-asm-clobber-rbx', prop='C17', expect='asm|abi',
+      edits=[('src/core/arch/x86_64/bigint.s', """embedded_pairing_core_arch_x86_64_bigint_384_subtract:
+    movq (%rsi), %rax""", """embedded_pairing_core_arch_x86_64_bigint_384_subtract:
+    movq (%rsi), %rbx
+    movq (%rsi), %rax""")]),
+ dict(name='c18-asm-multiply2-clears-top-word-first', prop='C18', expect='assembly leaf',
+      edits=[('src/core/arch/x86_64/bigint.s', """embedded_pairing_core_arch_x86_64_bigint_384_multiply2:
+    movq (%rsi), %rax
+    add %rax, %rax
+    movq %rax, (%rdi)
+""", """embedded_pairing_core_arch_x86_64_bigint_384_multiply2:
+    movq (%rsi), %rax
+    movq $0, 40(%rdi)
+    add %rax, %rax
+    movq %rax, (%rdi)
+""")]),
+]
